@@ -12,7 +12,7 @@
    input at any time (nothing invented, reordered or duplicated), and if the driver finished
    the items sent are exactly [ref items] and the downstream was finalized. *)
 From Coq Require Import List NArith Bool.
-From HV Require Import Push.Model Push.PBase Push.POne Push.PTwo Push.PFlatMap Push.PMore Push.PTwoOnce Push.PDemux Push.Run Push.PCompose.
+From HV Require Import Push.Model Push.PBase Push.POne Push.PTwo Push.PFlatMap Push.PMore Push.PTwoOnce Push.PDemux Push.Run Push.Model2 Push.PCompose Push.PCompose2.
 Import ListNotations.
 
 Theorem C12_map : forall A B (f : A -> B) fuel items rs0 fs0,
@@ -202,6 +202,86 @@ Theorem C12_pipeline_map_flatmap_filter :
     end.
 Proof. exact pipe_map_flatmap_filter_correct. Qed.
 Print Assumptions C12_pipeline_map_flatmap_filter.
+
+(* More stage operators (Push/PCompose2.v): each turns protocol-respecting downstream(s) into a
+   protocol-respecting push with the reference composed -- over ANY downstream, hence in any
+   pipeline.  accumulate.rs covers fold / reduce / sort-state (accum_state.rs). *)
+Theorem C12_stage_accumulate : forall A B S (accf : S -> A -> S) (outf : S -> list B) st0 (p : push B) Inv,
+    respects p Inv -> respects (accumulate_push accf outf p) (@AccInv _ _ _ accf outf st0 p Inv).
+Proof. intros. exact (acc_respects accf outf st0 H). Qed.
+Print Assumptions C12_stage_accumulate.
+
+Theorem C12_stage_sort : forall (p : push N) Inv, respects p Inv -> respects (sort_push p) (@SortInv p Inv).
+Proof. exact (@sort_respects). Qed.
+Print Assumptions C12_stage_sort.
+
+(* fold_keyed.rs / reduce_keyed.rs; [ord] is the HashMap iteration-order oracle *)
+Theorem C12_stage_keyed : forall V Acc (upd : V -> option Acc -> Acc) (ord : list N) (p : push (N * Acc)) Inv,
+    respects p Inv -> respects (keyed_push p upd ord) (@KInv _ _ upd ord p Inv).
+Proof. intros. exact (keyed_respects upd ord H). Qed.
+Print Assumptions C12_stage_keyed.
+
+Theorem C12_stage_persist : forall B (pre0 rest0 : list B) (p : push B) Inv,
+    respects p Inv -> respects (persist_push p) (@PInv _ pre0 rest0 p Inv).
+Proof. intros. exact (persist_respects pre0 rest0 H). Qed.
+Print Assumptions C12_stage_persist.
+
+(* resolve_futures.rs without a subgraph waker (blocking mode), scripted future-readiness queue *)
+Theorem C12_stage_resolve_blocking : forall B (p : push B) Inv,
+    respects_rf p Inv -> respects (resolve_push p false) (@RInv _ p Inv).
+Proof. exact (@resolve_respects). Qed.
+Print Assumptions C12_stage_resolve_blocking.
+
+Theorem C12_stage_fanout : forall A (p0 : push A) Inv0 (p1 : push A) Inv1,
+    respects p0 Inv0 -> respects p1 Inv1 ->
+    respects (fanout_push p0 p1) (@TwoInv _ _ _ (fun a : A => (a, a)) p0 Inv0 p1 Inv1).
+Proof. exact (@fanout_stage). Qed.
+Print Assumptions C12_stage_fanout.
+
+Theorem C12_stage_unzip : forall A B (p0 : push A) Inv0 (p1 : push B) Inv1,
+    respects p0 Inv0 -> respects p1 Inv1 ->
+    respects (unzip_push p0 p1) (@TwoInv _ _ _ (fun c : A * B => c) p0 Inv0 p1 Inv1).
+Proof. exact (@unzip_stage). Qed.
+Print Assumptions C12_stage_unzip.
+
+(* for_each.rs (and vec_push.rs, same shape): terminal base case *)
+Theorem C12_stage_for_each : forall A, respects_rf (for_each_push A) (@FEInv A).
+Proof. exact (@for_each_respects_rf). Qed.
+Print Assumptions C12_stage_for_each.
+
+Theorem C12_resolve_waker_refuted :
+  match drive (resolve_push (rec_push N) true) 20 [(9%N, 2)] ([], mkds [true; false] [false] []) [] with
+  | (o, _, s') => o = Finished /\ wf (lg (snd s')) = false /\
+                  lg (snd s') = [EFin true; ERdy true; ESend 9%N; ERdy true; EFin false; ERdy true; ERdy false; ERdy true]
+  end.
+Proof. exact resolve_waker_refuted. Qed.
+Print Assumptions C12_resolve_waker_refuted.
+
+(* recorder-facing corollaries obtained by composition *)
+Theorem C12_accumulate : forall A B S (accf : S -> A -> S) (outf : S -> list B) st0 fuel items rs0 fs0,
+    match drive (accumulate_push accf outf (rec_push B)) fuel items (@Accumulating B S st0, mkds rs0 fs0 []) [] with
+    | (o, _, s') =>
+      o <> Panicked /\
+      (o = Finished -> wf (lg (snd s')) = true /\ findone (lg (snd s')) = true /\
+                       sent (lg (snd s')) = outf (fold_left accf items st0))
+    end.
+Proof. exact (@accumulate_correct). Qed.
+Print Assumptions C12_accumulate.
+
+Theorem C12_pipeline_filter_fanout_fold :
+  forall A B (q : A -> bool) (f : A -> B) (comb : A -> A -> A) init fuel items ra fa rb fb,
+    match drive (filter_push (fanout_push (map_push (rec_push B) f)
+                                          (accumulate_push comb (@fold_outf A) (rec_push A))) q)
+                fuel items ((false, false), (mkds ra fa [], (@Accumulating A A init, mkds rb fb []))) [] with
+    | (o, _, s') =>
+      o <> Panicked /\
+      (o = Finished ->
+       let l0 := lg (fst (snd s')) in let l1 := lg (snd (snd (snd s'))) in
+       wf l0 = true /\ findone l0 = true /\ sent l0 = map f (filter q items) /\
+       wf l1 = true /\ findone l1 = true /\ sent l1 = [fold_left comb (filter q items) init])
+    end.
+Proof. exact (@pipe_filter_fanout_fold_correct). Qed.
+Print Assumptions C12_pipeline_filter_fanout_fold.
 
 (* Composition FAILS for the strict protocol when a stage that polls poll_ready between
    poll_finalize calls (flat_map / flatten / resolve_futures) feeds fanout / unzip / demux:
